@@ -1,7 +1,7 @@
 """C08 bounded part (symbolic-run where the family supports symbols): postconditions of Distribution.get_moment / get_support /
 is_discrete / cf / mgf / mgf_exists_at on family D, against the judge's own tables (spec/lang.py std_moment + location/scale algebra,
 written from the defining sums/integrals), and of the DistTransformer location/scale rewrites against the source semantics."""
-import hashlib, itertools, json
+import hashlib, random, itertools, json
 import sympy as sp
 from vcheck import common, judge, pool
 from vcheck.props.c01 import summarise
@@ -51,7 +51,25 @@ GRID = {
 def items(tier, seed):
     kmax = 6 if tier == 'quick' else 10
     its = []
-    for fam, grid in GRID.items():
+    grid_all = {k: list(v) for k, v in GRID.items()}
+    if tier != 'quick':
+        # seeded random rational parameter vectors inside each family's domain
+        rnd = random.Random(8000 + seed)
+        fr = lambda lo, hi: str(sp.Rational(rnd.randint(lo * 4, hi * 4), 4))
+        pos = lambda: str(sp.Rational(rnd.randint(1, 16), 4))
+        for _ in range(4):
+            p_ = sp.Rational(rnd.randint(1, 9), 10)
+            grid_all['Bernoulli'].append([str(p_)])
+            a_ = rnd.randint(-4, 3); grid_all['DiscreteUniform'].append([str(a_), str(a_ + rnd.randint(0, 5))])
+            grid_all['Normal'].append([fr(-3, 3), pos()])
+            lo = sp.Rational(rnd.randint(-12, 12), 4); grid_all['Uniform'].append([str(lo), str(lo + sp.Rational(rnd.randint(1, 16), 4))])
+            grid_all['Laplace'].append([fr(-3, 3), pos()])
+            grid_all['DistExp'].append([pos()])
+            grid_all['Gamma'].append([str(rnd.randint(1, 5)), pos()])
+            grid_all['Beta'].append([str(rnd.randint(1, 4)), str(rnd.randint(1, 4))])
+            w = [rnd.randint(1, 5) for _ in range(rnd.randint(2, 4))]
+            grid_all['Categorical'].append([str(sp.Rational(x, sum(w))) for x in w])
+    for fam, grid in grid_all.items():
         for ps in grid:
             symbolic = any(any(ch.isalpha() for ch in p) for p in ps)
             its.append(dict(name=f'{fam}({",".join(ps)})', kind='dist', family=fam, params=ps, ks=list(range(0, kmax + 1)),
